@@ -184,7 +184,7 @@ func c06Lns(f []string) string {
 			case ppp.ConfRej:
 				acts = append(acts, fmt.Sprintf("scj:%d:%s", p.id, c06ShowWire(p.data)))
 			case ppp.TermAck:
-				acts = append(acts, fmt.Sprintf("sta:%d", p.id))
+				acts = append(acts, "sta") // the identifier echoes a harness-chosen one
 			default:
 				acts = append(acts, fmt.Sprintf("x%d", p.code))
 			}
@@ -226,6 +226,28 @@ func c06Lns(f []string) string {
 			}
 			code := map[byte]uint8{'a': ppp.ConfAck, 'n': ppp.ConfNak, 'j': ppp.ConfRej}[ev[1]]
 			s.IPCP.FSM().Input(code, sid, c06Bytes(ev[2:]))
+		case ev == "X":
+			// time-outs until Max-Configure is exhausted; only the last retransmission is shown
+			for n := 0; n < 12; n++ {
+				st := s.IPCP.FSM().State()
+				if st != ppp.ReqSent && st != ppp.AckRcvd && st != ppp.AckSent {
+					break
+				}
+				s.IPCP.FSM().Timeout()
+			}
+			var keep []c06Pkt
+			for i := range sent {
+				if sent[i].code != ppp.ConfReq {
+					keep = append(keep, sent[i])
+				}
+			}
+			for i := len(sent) - 1; i >= 0; i-- {
+				if sent[i].code == ppp.ConfReq {
+					keep = append([]c06Pkt{sent[i]}, keep...)
+					break
+				}
+			}
+			sent = keep
 		case ev == "T":
 			if st := s.IPCP.FSM().State(); st == ppp.ReqSent || st == ppp.AckRcvd || st == ppp.AckSent {
 				s.IPCP.FSM().Timeout()
@@ -324,7 +346,7 @@ func c06Lns6(f []string) string {
 			case ppp.ConfRej:
 				acts = append(acts, fmt.Sprintf("scj:%d:%s", p.id, c06ShowWire(p.data)))
 			case ppp.TermAck:
-				acts = append(acts, fmt.Sprintf("sta:%d", p.id))
+				acts = append(acts, "sta") // the identifier echoes a harness-chosen one
 			default:
 				acts = append(acts, fmt.Sprintf("x%d", p.code))
 			}
@@ -442,7 +464,7 @@ func c06LnsL(f []string) string {
 			case ppp.ConfRej:
 				acts = append(acts, fmt.Sprintf("scj:%d:%s", p.id, c06ShowWire(p.data)))
 			case ppp.TermAck:
-				acts = append(acts, fmt.Sprintf("sta:%d", p.id))
+				acts = append(acts, "sta") // the identifier echoes a harness-chosen one
 			default:
 			}
 		}
